@@ -537,6 +537,11 @@ func (c *bufComp) Run(h *hlib.History) ([]hlib.Mon, bool) {
 	inner := http.HandlerFunc(func(w http.ResponseWriter, req *http.Request) {
 		st := cur
 		script := scriptOf(st.x.scripts, len(st.invs)+1)
+		// every response carries two header names on two lines each
+		w.Header().Add("Link", "</a.css>; rel=preload")
+		w.Header().Add("Link", "</b.js>; rel=preload")
+		w.Header().Add("Set-Cookie", "session=abc; Path=/; HttpOnly")
+		w.Header().Add("Set-Cookie", "theme=dark; Path=/")
 		rec := invocation{method: req.Method, url: req.URL.String(), hdr: req.Header.Clone(), cl: req.ContentLength,
 			te: append([]string{}, req.TransferEncoding...)}
 		hijacked := false
@@ -658,6 +663,9 @@ func (c *bufComp) Run(h *hlib.History) ([]hlib.Mon, bool) {
 			req.Header["x-token"] = []string{"lower"}
 			req.Header["X-Empty"] = []string{}
 		}
+		if st.x.chunked == 1 && st.x.url%3 == 0 {
+			req.TransferEncoding = nil // as handed on by an HTTP/2 front: unknown length, no transfer coding
+		}
 		ctx, cancel := context.WithCancel(req.Context())
 		defer cancel()
 		st.cancel = cancel
@@ -691,7 +699,11 @@ func (c *bufComp) Run(h *hlib.History) ([]hlib.Mon, bool) {
 		} else if len(body) > 0 {
 			rd = bytes.NewReader(body)
 		}
-		req, err := http.NewRequest(methodNames[x.method], srv.URL+"/p/"+strconv.FormatInt(x.url, 10)+"?q=1", rd)
+		query := "?q=1"
+		if x.url%5 == 4 {
+			query = "?" // a bare question mark: an empty query that is nevertheless there
+		}
+		req, err := http.NewRequest(methodNames[x.method], srv.URL+"/p/"+strconv.FormatInt(x.url, 10)+query, rd)
 		if err != nil {
 			panic(err)
 		}
@@ -904,6 +916,9 @@ func (c *bufComp) Run(h *hlib.History) ([]hlib.Mon, bool) {
 				if fmt.Sprint(respPairs) != fmt.Sprint(wantPairs) {
 					hit("C07", fmt.Sprintf("client got headers %v, the final attempt (%d) produced %v", respPairs, wantInv, wantPairs))
 				}
+				if l, c := respHdr["Link"], respHdr["Set-Cookie"]; len(l) != 2 || len(c) != 2 {
+					hit("C07", fmt.Sprintf("the final attempt (%d) sent Link and Set-Cookie on two lines each; the client got Link %q and Set-Cookie %q", wantInv, l, c))
+				}
 				if !bytes.Equal(respBody, wantBody) {
 					hit("C07", fmt.Sprintf("client got %d body bytes, the final attempt (%d) produced %d (status %d)", len(respBody), wantInv, len(wantBody), last.code))
 				}
@@ -1019,7 +1034,7 @@ func genScript(rng *rand.Rand, cfg []int64, bodyLen int64, final bool, targeted 
 	}
 	var code int64
 	if final {
-		code = hlib.Pick(rng, 0, 0, 200, 201, 204, 304, 404, 502)
+		code = hlib.Pick(rng, 0, 0, 200, 201, 203, 204, 205, 205, 304, 404, 502)
 	} else {
 		code = hlib.Pick(rng, 0, 200, 404, 500, 502, 502, 503, 504)
 	}
